@@ -35,9 +35,15 @@ CLAIMED = {
  "C13": dict(tech="postcondition monitor on ExponentiatedWeibullDistribution.fit vs an independent weighted regression + metamorphic drivers (weight scaling, row permutation, method alias)",
     text="Each least-squares fit over generated samples (zeros, ties, any order) and all weight specifications is compared with numpy-lstsq weighted quantile regression for the delta in force; free delta must be a local minimiser of the harness's own error; the driver re-fits with rescaled weights, permuted rows and the other method name.",
     note="trusted: numpy.linalg.lstsq; both readings of 'zeros are ignored' accepted; fmin's documented termination tolerances"),
+ "C14": dict(tech="postcondition monitor on DependenceFunction._fit (bounds, constraints, local optimality, lstsq) + online trace checker over fit/_fit/callback events + order/re-fit drivers",
+    text="Single fits over nine shapes with all kinds of bounds, active/inactive constraints (dict and list) and weights callables are judged for bounds, constraints, residual not above the start and no improving admissible +-1% perturbation, linear shapes against numpy lstsq; chains of length 2 and 3 (and the predefined alpha3/logistics4 pair inside a ConditionalDistribution) are fitted in every call/declaration order and re-fitted on other data; a trace checker requires the last fit of each dependent function to follow and see the final parameters of its conditioners, and final values must equal a topological-order fit.",
+    note="trusted: numpy lstsq, the harness's own residual; open known finding (weights handed to curve_fit as sigma) keyed by optimality in the inverse-weight metric"),
  "C15": dict(tech="harness-side boundary-cell/BFS recomputation from the captured HDR mask + permutation postcondition on the line sorter (both bindings)",
     text="The boundary cells and their components are recomputed with explicit neighbour shifts and a BFS from the captured mask and compared as multisets with the returned coordinates for 2-D/3-D, isotropic/anisotropic grids; the sorter is driven with regular, anisotropic, irregular, clustered, collinear and duplicate point sets and must return a permutation.",
     note="trusted: numpy; open known finding (sorter drops every point outside one component of its 2-NN graph) keyed by recomputing that graph"),
+ "C09": dict(tech="recording monitors on slice_, Distribution.fit and DependenceFunction.fit inside GlobalHierarchicalModel.fit + offline checker + permutation / re-fit history drivers",
+    text="Every joint fit over generated 2-D/3-D data (ties, rounding, any row order, all three slicers, MLE and (w)lsq) is recorded; the checker recomputes interval membership from the reported boundaries, re-fits a deep copy of the template to exactly those rows, checks the (x, y) handed to each dependence fit and the (method, weights) of every call against its own dimension, and compares fits across row orders, re-fits on permuted rows and re-fits on other data against a fresh model.",
+    note="trusted: numpy; tolerances stated in the evidence; open known finding (PointsPerIntervalSlicer splits tied values across intervals by row order) keyed by identical per-interval conditioning values + a tie straddling a cut"),
  "C10": dict(tech="postcondition monitor on IntervalSlicer.slice_ over an exhaustively driven edge lattice + random long vectors",
     text="All data vectors up to length 4 (quick) / 5 (thorough) over the half-width lattice for five widths, in every order, times the listed slicer configurations, plus random long rounded vectors: each slice_ call is judged by a monitor (exactly-one membership in the covered range, alignment, boundaries, references, dropped set, RuntimeError rule).",
     note="trusted: numpy comparisons; 'before dropping' is observed by re-running the same configuration with min_n_points=min_n_intervals=0"),
